@@ -530,7 +530,10 @@ FIXED_MALFORMED = [
     "(assert (exists (x Int) true))", "(assert (! true))", "(assert (! true :named))", "(assert (! true named x))", "(assert (! true :a (b ))",
     "(assert (_ bv5 3))", "(assert (= (_ bv5 3) #b101))", "(assert (= (_ bv9 3) #b101))", "(assert (= (_ bvx 3) #b101))", "(assert (= (_ bv5) #b101))",
     "(assert (_ extract 1 0))", "(assert ((_ extract 0 1) #b11))", "(assert (= ((_ extract 5 0) #b11) #b11))", "(assert (= ((_ extract a 0) #b11) #b1))",
-    "(assert (= ((_ foo 1) #b11) #b1))", "(assert (= ((_ repeat 0) #b1) #b1))", "(assert (= ((_ rotate_left 5) #b101) #b101))",
+    "(assert (= ((_ foo 1) #b11) #b1))", "(assert (= ((_ repeat 0) #b1) #b1))",
+    "(declare-fun i () Int)(assert (= ((_ repeat 1) i) i))", "(assert (= ((_ repeat 1) (+ 1 2)) 3))",
+    "(declare-fun p () Bool)(assert ((_ repeat 1) p))", "(declare-fun i () Int)(assert (= ((_ repeat 2) i) i))",
+    "(assert (= ((_ repeat 1) #b10) #b10))", "(assert (= ((_ rotate_left 5) #b101) #b101))",
     "(assert (= ((_ zero_extend -1) #b101) #b101))", "(assert (= ((_ to_bv 4) 3) #x3))", "(assert (= ((_ to_bv 4) (- 3)) #xD))", "(assert (= ((_ to_bv 4) x) #x3))",
     "(assert (= ((_ to_bv 2) 9) #b01))", "(assert ((as const (Array Int Int)) true))", "(assert (= ((as const Int) 1) 1))", "(assert (as x Bool))",
     "(declare-fun x () Int)(assert (as x Bool))", "(assert (and))", "(assert (or))", "(assert (and true))", "(assert (not))", "(assert (not true false))",
